@@ -189,6 +189,8 @@ structure Cfg where
   loadIsPerEntry : Bool        -- wave 3: `load_state` treats every listed file on its own (see `loadEntries`)
   replayOrderPreserved : Bool  -- wave 4: the restored log lists the steps in execution order (see `readLog`)
   loadReadsCommitted : Bool    -- wave 6: a load reads the committed state file, never the temporary file (see `readT`)
+  loadSkipsUnusable : Bool     -- wave 7: a state file that parses but holds no session state is skipped like an unreadable one
+                               -- (proposed repair `C20-load-skips-unusable-state`; not part of `good`, see `NoStartupFailureOnJunk`)
 deriving DecidableEq, Repr
 
 /-- the two facts the restore of ONE instance relies on -/
@@ -380,6 +382,7 @@ inductive Entry where
   | bad
   | raw (p : Persist)
   | ready (p : Persist)
+  | junk                 -- wave 7: read without error, but not a session state (inner state null / {} / without its logs)
 deriving DecidableEq, Repr
 
 def removeFirstBad : List Entry → List Entry
@@ -396,11 +399,13 @@ def loopSkip : Nat → Nat → List Entry → List Entry
     | some .bad => loopSkip f (i + 1) (removeFirstBad l)
     | some (.raw p) => loopSkip f (i + 1) (l.set i (.ready p))
     | some (.ready _) => loopSkip f (i + 1) l
+    | some .junk => loopSkip f (i + 1) l
 
 def perEntry : Entry → Option Entry
   | .bad => none
   | .raw p => some (.ready p)
   | .ready p => some (.ready p)
+  | .junk => some .junk
 
 def loadEntries (c : Cfg) (l : List Entry) : List Entry :=
   if c.loadIsPerEntry then l.filterMap perEntry else loopSkip l.length 0 l
@@ -412,10 +417,33 @@ def startup (compress : Bool) : List Entry → Option (List Persist)
   | .bad :: _ => none
   | .raw p :: r => if compress then none else (startup compress r).map (p :: ·)
   | .ready p :: r => (startup compress r).map (p :: ·)
+  | .junk :: _ => none           -- decompress / `_set_state` raise on it
 
 def listing : List (Option Persist) → List Entry
   | [] => []
   | none :: r => .bad :: listing r
   | some p :: r => .raw p :: listing r
+
+/-! wave 7: what a state FILE can be for the load: unreadable, readable but not a session state, or a session state -/
+inductive Stored where
+  | unreadable
+  | notASession
+  | session (p : Persist)
+deriving DecidableEq, Repr
+
+def listingS : List Stored → List Entry
+  | [] => []
+  | .unreadable :: r => .bad :: listingS r
+  | .notASession :: r => .junk :: listingS r
+  | .session p :: r => .raw p :: listingS r
+
+def sessionsOf : List Stored → List Persist
+  | [] => []
+  | .session p :: r => p :: sessionsOf r
+  | _ :: r => sessionsOf r
+
+/-- the repaired load drops what is not a session state as well -/
+def loadEntriesS (c : Cfg) (l : List Entry) : List Entry :=
+  if c.loadSkipsUnusable then (loadEntries c l).filter (· != .junk) else loadEntries c l
 
 end Bptk.C20
